@@ -49,7 +49,7 @@ def run_module(pid, P, repo, verif, mode, seed, tier, inp=None, timeout=None):
         return dict(found=False, note="no witness search for this property")
     if timeout is None:
         # a case of the real code that neither returns nor panics within the limit is reported as a hang (progress file)
-        timeout = P.get("replay_timeout_thorough" if tier == "thorough" else "replay_timeout", 900 if tier == "thorough" else 150)
+        timeout = P.get("replay_timeout_thorough" if tier == "thorough" else "replay_timeout", 1800 if tier == "thorough" else 300)
     d = scratch_copy(repo, "replay-" + pid)
     try:
         inject(d, verif, mod, "verif_replay")
@@ -72,6 +72,14 @@ def run_module(pid, P, repo, verif, mode, seed, tier, inp=None, timeout=None):
         os.utime(os.path.join(d, "src", "lib.rs"), None)
         t0 = time.time()
         try:
+            # build first, outside the hang limit (a cold cache or a loaded machine must not look like a hang of the real code)
+            try:
+                bp = subprocess.run(["cargo", "test", "--offline", "--lib", "--release", "--no-run"], cwd=d, env=env, capture_output=True, text=True, timeout=3000)
+                if bp.returncode != 0:
+                    return dict(found=False, module_error=True, rc=bp.returncode, wall_s=round(time.time() - t0, 1),
+                                cmd=" ".join(cmd), note="replay module did not build: " + bp.stderr[-600:])
+            except (subprocess.TimeoutExpired, OSError) as e:
+                return dict(found=False, module_error=True, rc=-1, wall_s=round(time.time() - t0, 1), cmd=" ".join(cmd), note="replay build: %s" % e)
             pr = subprocess.Popen(cmd, cwd=d, env=env, stdout=subprocess.PIPE, stderr=subprocess.PIPE, text=True, start_new_session=True)
             try:
                 so, se = pr.communicate(timeout=timeout)
